@@ -6,7 +6,7 @@ inductive Mode where
   | idle
   | vec (portable tracked : Bool) (s : St)
   | faulted
-  | flat (m : FMap) (s : FSet)
+  | flat (lt : Int → Int → Bool) (m : FMap) (s : FSet)
 
 def showVec (v : Vec) : String :=
   let body :=
@@ -125,19 +125,31 @@ def parseSOp : List String → Option SOp
   | ["siter"] => some .iter
   | _ => none
 
-def flatStep (m : FMap) (s : FSet) (ws : List String) : Option (FMap × FSet × String) :=
+/-- the comparators the harness instantiates (`Compare` of flat_map / flat_set, handed to the model as `lt`) -/
+def cmpOf : String → Option (Int → Int → Bool)
+  | "less" => some ltInt                                            -- std::less<int>
+  | "greater" => some fun a b => decide (b < a)                      -- std::greater<int>
+  | "lastdigit" => some fun a b => decide (a.tmod 10 < b.tmod 10)    -- a % 10 < b % 10 (C++ truncating %)
+  | "sgreater" => some fun a b => decide (toString b < toString a)   -- std::greater<std::string> on std::to_string
+  | _ => none
+
+def flatStep (lt : Int → Int → Bool) (m : FMap) (s : FSet) (ws : List String) : Option (FMap × FSet × String) :=
   match parseMOp ws with
-  | some op => let (m', r) := m.step op; some (m', s, showMRet r)
+  | some op => let (m', r) := m.step lt op; some (m', s, showMRet r)
   | none =>
     match parseSOp ws with
-    | some op => let (s', r) := s.step op; some (m, s', showSRet r)
+    | some op => let (s', r) := s.step lt op; some (m, s', showSRet r)
     | none =>
       -- copy construction / copy assignment / move of the whole map (defaulted members): the map is unchanged
       if ws = ["mcopy"] then some (m, s, "10") else none
 
 def stepLine (st : Mode) (line : String) : Mode × String :=
   match words line with
-  | ["reset", "flat", _] => (.flat {} {}, "ok")
+  | ["reset", "flat", _] => (.flat ltInt {} {}, "ok")
+  | ["reset", "flat", _, c] =>
+    match cmpOf c with
+    | some lt => (.flat lt {} {}, "ok")
+    | none => (.idle, "bad-op")
   | ["reset", ty, var] =>
     if (ty = "int" ∨ ty = "trk") ∧ (var = "v" ∨ var = "p") then
       (.vec (var = "p") (ty = "trk") St.init, "ok")
@@ -146,9 +158,9 @@ def stepLine (st : Mode) (line : String) : Mode × String :=
     match st with
     | .idle => (st, "bad-op")
     | .faulted => (st, "fault")
-    | .flat m s =>
-      match flatStep m s ws with
-      | some (m, s, r) => (.flat m s, r ++ flatDump m s)
+    | .flat lt m s =>
+      match flatStep lt m s ws with
+      | some (m, s, r) => (.flat lt m s, r ++ flatDump m s)
       | none => (st, "bad-op")
     | .vec p t s =>
       if ws = ["end"] then
